@@ -56,7 +56,7 @@ func (r *Run) Do(op Op) {
 	}()
 	switch op.K {
 	case "Purge":
-		r.Purge(op.H)
+		r.purge(op.H, op.Amt == 1)
 	case "Reopen":
 		if r.W.Cfg.Disk {
 			r.ReopenStep()
@@ -138,6 +138,9 @@ func genPseudo(rt *rapid.T, w *World, pr *Profile, kind string) Op {
 	op := Op{K: kind}
 	if len(w.Handles) > 1 {
 		op.H = rapid.IntRange(0, len(w.Handles)-1).Draw(rt, "h")
+	}
+	if kind == "Purge" && chance(rt, 30, "purge.fresh") {
+		op.Amt = 1 // through a handle opened for the occasion
 	}
 	if kind == "Backfill" {
 		op.C = pickColl(rt, w, "bf.coll")
